@@ -1,10 +1,13 @@
 package engine
 
 import (
+	"iter"
+
 	art "github.com/Clement-Jean/go-art"
 
 	"verif/internal/ev"
 	"verif/internal/kinds"
+	"verif/internal/ref"
 	"verif/internal/rng"
 )
 
@@ -25,6 +28,11 @@ type Stepper interface {
 	// Addrs returns the addresses of the inner nodes currently in the tree, by class.
 	Addrs() map[uintptr]int
 	Len() int
+	// IterNested drains All() and compares it with the reference; when the pass
+	// reaches element number at, nested (if any) is run inside the loop body.
+	IterNested(at int, nested func())
+	// AbandonDescending starts a descending pass (Backward / TopK) and leaves it early.
+	AbandonDescending()
 }
 
 type stepper[K any] struct {
@@ -156,12 +164,52 @@ type Reader interface {
 	Dead() bool
 }
 
-type reader[K any] struct{ s *Session[K] }
+type sharedSeq[K any] struct {
+	name string
+	seq  iter.Seq2[K, uint64]
+	want []*ref.Entry[K]
+}
+
+type reader[K any] struct {
+	s    *Session[K]
+	seqs []sharedSeq[K]
+}
 
 func (rd *reader[K]) Dead() bool { return rd.s.Dead }
 
 func (rd *reader[K]) Round(r *rng.R) {
 	s := rd.s
+	if len(rd.seqs) > 0 && r.Chance(1, 4) {
+		// one sequence value created before the goroutines started, consumed by all of them at once
+		sq := rd.seqs[r.Intn(len(rd.seqs))]
+		stop := -1
+		if len(sq.want) > 0 && r.Chance(1, 3) {
+			stop = r.Intn(len(sq.want))
+		}
+		var got []pair[K]
+		if s.guard("shared "+sq.name, func() {
+			i := 0
+			for k, v := range sq.seq {
+				got = append(got, pair[K]{k, v})
+				if i == stop || len(got) > len(sq.want)+1 {
+					break
+				}
+				i++
+			}
+		}) {
+			return
+		}
+		s.Res.Evaluations++
+		s.Res.Inc("shared_sequence_value_passes")
+		want := sq.want
+		if stop >= 0 {
+			want = want[:stop+1]
+		}
+		if !s.equalSeq(got, want) {
+			s.violate("a pass over a sequence value shared by several goroutines ("+sq.name+") differs from the sequential result", s.showEntries(want), s.showPairs(got), "")
+		}
+		return
+	}
 	switch r.Intn(6) {
 	case 0:
 		s.CheckIter()
@@ -199,7 +247,10 @@ type Shared interface {
 	Name() string
 }
 
-type shared[K any] struct{ s *Session[K] }
+type shared[K any] struct {
+	s    *Session[K]
+	seqs []sharedSeq[K]
+}
 
 func (sh *shared[K]) Len() int     { return sh.s.M.Len() }
 func (sh *shared[K]) Name() string { return sh.s.K.Name }
@@ -209,7 +260,7 @@ func (sh *shared[K]) NewReader(res *ev.Result, name string) Reader {
 	rs := &Session[K]{K: sh.s.K, Cfg: &cfg, Res: res, Unit: name, every: 1, trace: ev.NewHasher()}
 	rs.T = sh.s.T
 	rs.M = sh.s.M.Clone()
-	return &reader[K]{s: rs}
+	return &reader[K]{s: rs, seqs: sh.seqs}
 }
 
 // BuildShared builds a tree sequentially from one history (monitors on).
@@ -217,7 +268,41 @@ func BuildShared[K any](k *kinds.Kind[K], cfg *Config, res *ev.Result, name stri
 	s := NewSession(k, cfg, res, name)
 	r := unitRng(seed, name)
 	s.RunHistory(r, nOps, poolN)
-	return &shared[K]{s: s}
+	sh := &shared[K]{s: s}
+	if s.Dead || s.M.Len() == 0 {
+		return sh
+	}
+	// sequence values created once, sequentially, with their sequential results
+	sorted := append([]*ref.Entry[K]{}, s.M.Sorted()...)
+	rev := reversed(sorted)
+	n := len(sorted)
+	sh.seqs = append(sh.seqs,
+		sharedSeq[K]{"All()", s.T.All(), sorted},
+		sharedSeq[K]{"Backward()", s.T.Backward(), rev},
+		sharedSeq[K]{"TopK(3)", s.T.TopK(3), rev[:min(3, n)]},
+		sharedSeq[K]{"BottomK(3)", s.T.BottomK(3), sorted[:min(3, n)]},
+	)
+	if k.HasRange && n >= 2 {
+		a, b := sorted[n/4].Key, sorted[(3*n)/4].Key
+		if ok, _ := k.RangeOK(a, b); ok && k.Cmp(a, b) != 0 {
+			if want, skip := s.expectedRange(a, b); skip == "" {
+				sh.seqs = append(sh.seqs, sharedSeq[K]{"Range(" + k.Show(a) + "," + k.Show(b) + ")", s.T.Range(k.Clone(a), k.Clone(b)), want})
+			}
+		}
+	}
+	if k.HasPrefix && k.Family == "alpha" {
+		p := sorted[n/2].Key
+		qs := k.PrefixQueries(r, p)
+		p = qs[1%len(qs)]
+		var want []*ref.Entry[K]
+		for _, e := range sorted {
+			if k.PrefixOf(e.Key, p) {
+				want = append(want, e)
+			}
+		}
+		sh.seqs = append(sh.seqs, sharedSeq[K]{"Prefix(" + k.Show(p) + ")", s.T.Prefix(k.Clone(p)), want})
+	}
+	return sh
 }
 
 // sweepStepper walks one 256-way fan-out family up and down through every
@@ -310,3 +395,54 @@ func (st *sweepStepper[K]) Step() bool {
 func (st *sweepStepper[K]) Addrs() map[uintptr]int {
 	return (&stepper[K]{s: st.s}).Addrs()
 }
+
+// CheckIterNested: a full All() pass with another piece of work run inside
+// the loop body at one element; the pass must still deliver the reference.
+func (s *Session[K]) CheckIterNested(at int, nested func()) {
+	if s.Dead {
+		return
+	}
+	want := s.M.Sorted()
+	var got []pair[K]
+	s.log("All() with another iteration nested inside the loop body at element %d", at)
+	if s.guard("All with nested iteration", func() {
+		i := 0
+		for k, v := range s.T.All() {
+			got = append(got, pair[K]{k, v})
+			if i == at && nested != nil {
+				nested()
+			}
+			i++
+			if len(got) > len(want)+1 {
+				break
+			}
+		}
+	}) {
+		return
+	}
+	s.Res.Evaluations++
+	s.Res.Inc("nested_cross_tree_iterations")
+	if !s.equalSeq(got, want) {
+		s.violate("an iteration of this tree, with an iteration of another tree running inside its loop body, differs from the sorted reference",
+			s.showEntries(want), s.showPairs(got), "")
+	}
+}
+
+func (s *Session[K]) abandonDescending() {
+	if s.Dead {
+		return
+	}
+	s.guard("abandoned descending pass", func() {
+		for range s.T.Backward() {
+			break
+		}
+		for range s.T.TopK(2) {
+			break
+		}
+	})
+}
+
+func (st *stepper[K]) IterNested(at int, nested func())      { st.s.CheckIterNested(at, nested) }
+func (st *stepper[K]) AbandonDescending()                    { st.s.abandonDescending() }
+func (st *sweepStepper[K]) IterNested(at int, nested func()) { st.s.CheckIterNested(at, nested) }
+func (st *sweepStepper[K]) AbandonDescending()               { st.s.abandonDescending() }
